@@ -701,11 +701,45 @@ ASSIGN_OPS = ('BitAndAssign::bitand_assign', 'BitOrAssign::bitor_assign', 'BitXo
               '::reverse', '::swap', '::fill', '::rotate_left', '::rotate_right', '::sort', '::make_ascii_lowercase', '::make_ascii_uppercase')
 
 
+def _checked_fn_params(prog, eng, scope):
+    """{(function, parameter local)}: function-valued parameters for which some caller hands in a checked constructor
+    (`parse_point(slice, G1Affine::from_compressed, ..)`): a call of the parameter is a call of the constructor"""
+    out = set()
+    for p, b in prog.bodies.items():
+        if b.from_expansion or not p.startswith(scope):
+            continue
+        for bi, t in b.calls():
+            tgt = local_target(eng, t)
+            if tgt is None or tgt not in prog.bodies:
+                continue
+            for k, a in enumerate(t['args']):
+                if a.get('k') == 'const' and a.get('fn') in CHECKED and k + 1 <= prog.bodies[tgt].arg_count:
+                    out.add((tgt, k + 1))
+    return out
+
+
+def _decoder_sinks(fd, b, t, D, FP, tgt):
+    """operands of call `t` that are judged by a checked constructor: its first argument, the argument of a decoder parameter of a local callee,
+    or the arguments of a call of a function parameter that stands for a checked constructor"""
+    cal = t.get('callee') or ''
+    if cal in CHECKED:
+        return [t['args'][0]] if t['args'] else []
+    if cal in ('std::ops::FnOnce::call_once', 'std::ops::Fn::call', 'std::ops::FnMut::call_mut') and len(t['args']) == 2 and t['args'][0]['k'] in ('copy', 'move'):
+        r0 = fd.resolve_place(t['args'][0]['pl'])[0]
+        if (b.path, r0) in FP:
+            return [t['args'][1]]
+        return []
+    if tgt is not None:
+        return [t['args'][k - 1] for (f, k) in D if f == tgt and k - 1 < len(t['args'])]
+    return []
+
+
 def decoder_params(ctx, cfg, scope):
     """{(function, parameter local)}: octet parameters that reach a checked constructor, directly or through another such parameter"""
     from dep import strip
     prog, eng = ctx.prog(cfg), ctx.eng(cfg)
     D = set()
+    FP = _checked_fn_params(prog, eng, scope)
     changed = True
     rounds = 0
     while changed and rounds < 6:
@@ -718,13 +752,7 @@ def decoder_params(ctx, cfg, scope):
             for bi, t in b.calls():
                 cal = t.get('callee') or ''
                 tgt = local_target(eng, t)
-                sinks = []
-                if cal in CHECKED:
-                    sinks = [0]
-                elif tgt is not None:
-                    sinks = [k - 1 for (f, k) in D if f == tgt and k - 1 < len(t['args'])]
-                for ai in sinks:
-                    a = t['args'][ai]
+                for a in _decoder_sinks(fd, b, t, D, FP, tgt):
                     if a['k'] not in ('copy', 'move'):
                         continue
                     for at in fd.read_op(a):
@@ -743,6 +771,7 @@ def rule_decoder_input_integrity(ctx, cfg='prod-all', scope=('bbsplus::', 'utils
     Otherwise several encodings decode to one value (non-canonical forms accepted) or a different value is validated than the one supplied."""
     prog, eng = ctx.prog(cfg), ctx.eng(cfg)
     D = decoder_params(ctx, cfg, scope)
+    FP = _checked_fn_params(prog, eng, scope)
     n = 0
     for p, b in sorted(prog.bodies.items()):
         if b.from_expansion or not p.startswith(scope) or b.kind == 'Closure':
@@ -752,37 +781,40 @@ def rule_decoder_input_integrity(ctx, cfg='prod-all', scope=('bbsplus::', 'utils
         for bi, t in b.calls():
             cal = t.get('callee') or ''
             tgt = local_target(eng, t)
-            sinks = [0] if cal in CHECKED else ([k - 1 for (f, k) in D if f == tgt and k - 1 < len(t['args'])] if tgt else [])
-            for ai in sinks:
-                a = t['args'][ai]
+            for a in _decoder_sinks(fd, b, t, D, FP, tgt):
                 if a['k'] not in ('copy', 'move'):
                     continue
-                root = fd.resolve_place(a['pl'])[0]
-                if fd.is_param(root) or root in seen:
-                    continue
-                ty = b.local_ty(root).replace('&mut ', '').lstrip('&').strip()
-                if not ty.startswith(('[u8', 'std::vec::Vec<u8')):
-                    continue
-                seen.add(root)
-                n += 1
-                bad = []
-                for bj, st in b.stmts():
-                    if st['k'] == 'assign' and st['dst'].get('p') and fd.resolve_place(st['dst'])[0] == root:
-                        rv = st['rv']
-                        src = None
-                        if rv['k'] in ('binop', 'unop') or (rv['k'] == 'cast' and rv.get('ck') == 'IntToInt'):
-                            bad.append('L%s element computed by %s' % (st.get('line'), rv.get('op') or rv['k']))
-                        elif rv['k'] == 'use' and rv['op']['k'] in ('copy', 'move') and not rv['op']['pl'].get('p'):
-                            d = [x for x in fd.defs.get(rv['op']['pl']['l'], [])]
-                            if len(d) == 1 and d[0][0] == 'assign' and d[0][2]['rv']['k'] in ('binop', 'unop'):
-                                bad.append('L%s element computed by %s' % (st.get('line'), d[0][2]['rv'].get('op')))
-                for bj, t2 in b.calls():
-                    c2 = t2.get('callee') or ''
-                    if c2.endswith(ASSIGN_OPS) and t2['args'] and t2['args'][0]['k'] in ('copy', 'move') and fd.resolve_place(t2['args'][0]['pl'])[0] == root \
-                            and b.local_ty(t2['args'][0]['pl']['l']).startswith('&mut'):
-                        bad.append('L%s %s' % (t2.get('line'), c2.split('::')[-1]))
-                yield Ob('RF-E', '%s#decoder-input:%s' % (p, b.local_name(root)), not bad,
-                         'the buffer handed to a checked constructor / decoder is filled by copying the input octets only', '%s L%s' % (b.file(), t.get('line')),
-                         fact={'buffer': b.local_name(root), 'handed_to': (tgt or cal).split('::')[-1], 'computed_writes': bad[:4]}, expected='copies only')
+                roots = [fd.resolve_place(a['pl'])[0]]
+                # the argument tuple of a call through a function parameter: the buffers it is built from
+                d0 = [x for x in fd.defs.get(roots[0], []) if not x[2].get('dst', {}).get('p')]
+                if len(d0) == 1 and d0[0][0] == 'assign' and d0[0][2]['rv']['k'] == 'agg' and d0[0][2]['rv'].get('ak') == 'tuple':
+                    roots = [fd.resolve_place(o['pl'])[0] for o in d0[0][2]['rv']['ops'] if o['k'] in ('copy', 'move')]
+                for root in roots:
+                    if fd.is_param(root) or root in seen:
+                        continue
+                    ty = b.local_ty(root).replace('&mut ', '').lstrip('&').strip()
+                    if not ty.startswith(('[u8', 'std::vec::Vec<u8')):
+                        continue
+                    seen.add(root)
+                    n += 1
+                    bad = []
+                    for bj, st in b.stmts():
+                        if st['k'] == 'assign' and st['dst'].get('p') and fd.resolve_place(st['dst'])[0] == root:
+                            rv = st['rv']
+                            src = None
+                            if rv['k'] in ('binop', 'unop') or (rv['k'] == 'cast' and rv.get('ck') == 'IntToInt'):
+                                bad.append('L%s element computed by %s' % (st.get('line'), rv.get('op') or rv['k']))
+                            elif rv['k'] == 'use' and rv['op']['k'] in ('copy', 'move') and not rv['op']['pl'].get('p'):
+                                d = [x for x in fd.defs.get(rv['op']['pl']['l'], [])]
+                                if len(d) == 1 and d[0][0] == 'assign' and d[0][2]['rv']['k'] in ('binop', 'unop'):
+                                    bad.append('L%s element computed by %s' % (st.get('line'), d[0][2]['rv'].get('op')))
+                    for bj, t2 in b.calls():
+                        c2 = t2.get('callee') or ''
+                        if c2.endswith(ASSIGN_OPS) and t2['args'] and t2['args'][0]['k'] in ('copy', 'move') and fd.resolve_place(t2['args'][0]['pl'])[0] == root \
+                                and b.local_ty(t2['args'][0]['pl']['l']).startswith('&mut'):
+                            bad.append('L%s %s' % (t2.get('line'), c2.split('::')[-1]))
+                    yield Ob('RF-E', '%s#decoder-input:%s' % (p, b.local_name(root)), not bad,
+                             'the buffer handed to a checked constructor / decoder is filled by copying the input octets only', '%s L%s' % (b.file(), t.get('line')),
+                             fact={'buffer': b.local_name(root), 'handed_to': (tgt or cal).split('::')[-1], 'computed_writes': bad[:4]}, expected='copies only')
     yield Ob('RF-E', 'crate#decoder-inputs', len(D) >= 6, 'octet parameters that reach a checked constructor', '', fact={'decoder_parameters': len(D), 'local_buffers_judged': n},
              expected='>= 6', nontrivial=False)
